@@ -34,6 +34,8 @@ func c09(c *Ctx) {
 	c05R3(c)
 	c09R8(c)
 	c09R9(c)
+	c09R11(c)
+	ruleFieldSetByAllBuilders(c, "C09.R10", daemonPkg, "networkService", "ipamType", "NetworkServiceBuilder", "Build", "the IPAM mode the collector's clean-up of the node's runtime record depends on")
 	// a handler that dead-locks against the queued collector stops collection for good (shared rule)
 	c04R7(c)
 	ruleArgSwap(c, "C04.R8", c.P.AllFuncs(), "the whole module (the pod key namespace/name identifies the record and the owner of an address)")
@@ -829,4 +831,46 @@ func c09R9(c *Ctx) {
 		c.Check(w == nil, "C09.R9", "Manager.Release: success only behind the loop over the resources", p.Pos(r), fn.Key(), "must-pass: range req.NetworkResources", "path: "+p.describePath(w))
 	}
 	c.Floor("C09.R9", "success returns of Manager.Release", 1, n)
+}
+
+// R11: "no such device" is said with the sentinel. GetDeviceNumber's exit after the scan of the links
+// (no device carries the MAC) wraps link.ErrNotFound — the kind gcPolicyRoutes and the plugin test with
+// errors.Is to tolerate a detached interface. (R3 only asks that the kind can be produced at all.)
+func c09R11(c *Ctx) {
+	p := c.P
+	c.Rule("C09.R11", "link.GetDeviceNumber: every return that follows the scan of the link list and reports failure wraps link.ErrNotFound")
+	fn := p.Func("pkg/link", "GetDeviceNumber")
+	sentinel := p.LookupObj("pkg/link", "ErrNotFound")
+	if fn == nil || sentinel == nil {
+		c.Unres("C09.R11", "link.GetDeviceNumber / link.ErrNotFound", "not found")
+		return
+	}
+	info := fn.Info()
+	var scan *ast.RangeStmt
+	for _, st := range fn.Decl.Body.List {
+		if rs, ok := st.(*ast.RangeStmt); ok {
+			scan = rs
+		}
+	}
+	if scan == nil {
+		c.Undec("C09.R11", "GetDeviceNumber scans the links", p.Pos(fn.Decl), fn.Key(), "for _, link := range linkList", "no top-level range loop")
+		return
+	}
+	sig := fn.Obj.Type().(*types.Signature)
+	n := 0
+	for _, r := range declReturns(fn.Decl.Body) {
+		if r.Pos() < scan.End() || len(r.Results) != sig.Results().Len() || info.Types[ast.Unparen(r.Results[len(r.Results)-1])].IsNil() {
+			continue
+		}
+		n++
+		wraps := false
+		ast.Inspect(r, func(k ast.Node) bool {
+			if id, ok := k.(*ast.Ident); ok && info.ObjectOf(id) == sentinel {
+				wraps = true
+			}
+			return !wraps
+		})
+		c.Check(wraps, "C09.R11", "GetDeviceNumber: the not-found exit wraps the sentinel", p.Pos(r), fn.Key(), "errors.Wrapf(ErrNotFound, …) / fmt.Errorf(\"…%w\", ErrNotFound)", exprString2(r))
+	}
+	c.Floor("C09.R11", "failure exits after the scan", 1, n)
 }
